@@ -18,6 +18,25 @@ def set_repo(path):
     REPO[0] = path
     MODS.clear()
 
+_MJ_ENUM = {}
+
+
+def _mujoco_enum(full):
+    """Integer value of a MuJoCo enum member (mujoco.mjtTrn.mjTRN_JOINT, ...), read from the installed library's
+    constant table (no brax code is imported)."""
+    if full not in _MJ_ENUM:
+        val = None
+        try:
+            import importlib
+            m = importlib.import_module('mujoco')
+            _, enum, member = full.split('.')
+            val = int(getattr(getattr(m, enum), member))
+        except Exception:  # pylint: disable=broad-except
+            val = None
+        _MJ_ENUM[full] = val
+    return _MJ_ENUM[full]
+
+
 class OutOfFragment(AnalysisError):
     pass
 OPAQUE_DIV = [False]
@@ -744,6 +763,29 @@ def class_fields(mod, cname, seen=None):
             fields.append(s.target.id)
     return fields
 
+_STATIC_FIELDS = {}
+
+
+def static_fields(mod, cname):
+    """Fields of a flax.struct dataclass declared with struct.field(pytree_node=False): auxiliary data, not
+    pytree leaves (jax.tree.map leaves them alone)."""
+    key = (mod, cname)
+    if key not in _STATIC_FIELDS:
+        out = set()
+        try:
+            c = load(mod)['classes'].get(cname)
+        except Exception:  # pylint: disable=broad-except
+            c = None
+        if c is not None:
+            for s in c.body:
+                if isinstance(s, ast.AnnAssign) and isinstance(s.target, ast.Name) and isinstance(s.value, ast.Call):
+                    for k in s.value.keywords:
+                        if k.arg == 'pytree_node' and isinstance(k.value, ast.Constant) and k.value.value is False:
+                            out.add(s.target.id)
+        _STATIC_FIELDS[key] = out
+    return _STATIC_FIELDS[key]
+
+
 def find_method(mod, cname, attr, skip_self=False):
     """(module, FunctionDef, owner class name) following base classes by name."""
     m = load(mod)
@@ -850,11 +892,12 @@ def P_array(x, dtype=None):
     return asarr(x)
 def P_tile(a, reps):
     return np.tile(asarr(a), reps)
-def P_eye(n, *a):
-    e = np.empty((n, n), dtype=object)
+def P_eye(n, M=None, k=0, **kw):
+    n = int(n); m = int(M) if isinstance(M, (int, np.integer)) else n; k = int(k)
+    e = np.empty((n, m), dtype=object)
     for i in range(n):
-        for j in range(n):
-            e[i, j] = Rat.lift(1 if i == j else 0)
+        for j in range(m):
+            e[i, j] = Rat.lift(1 if j - i == k else 0)
     return e
 def P_norm(x, *a, **k):
     x = asarr(x)
@@ -1144,6 +1187,10 @@ class Interp:
                     return not v
                 return 1 - v
             if isinstance(n.op, ast.Invert):
+                if isinstance(v, np.ndarray) and v.dtype == bool:
+                    return ~v
+                if isinstance(v, (bool, np.bool_)):
+                    return not v
                 return 1 - v
             if isinstance(n.op, ast.UAdd):
                 return v
@@ -1242,7 +1289,7 @@ class Interp:
             return int(v.constval())
         if isinstance(v, np.ndarray) and v.dtype == object:
             if all(isinstance(x, Rat) and x.is_const() for x in v.ravel()):
-                return np.array([int(x.constval()) for x in v.ravel()]).reshape(v.shape)
+                return np.array([int(x.constval()) for x in v.ravel()], dtype=int).reshape(v.shape)
             raise OutOfFragment('abstract index')
         return v
 
@@ -1253,6 +1300,12 @@ class Interp:
         if isinstance(op, (ast.In, ast.NotIn)):
             res = l in r
             return res if isinstance(op, ast.In) else not res
+        def native(x):
+            return (isinstance(x, np.ndarray) and x.dtype != object) or isinstance(x, (bool, int, float, np.generic))
+        if native(l) and native(r) and (isinstance(l, np.ndarray) or isinstance(r, np.ndarray)):
+            # concrete (host-side numpy) data: an ordinary elementwise comparison, result usable as a mask
+            import operator as _op
+            return {ast.Eq: _op.eq, ast.NotEq: _op.ne, ast.Lt: _op.lt, ast.LtE: _op.le, ast.Gt: _op.gt, ast.GtE: _op.ge}[type(op)](l, r)
         conc = (bool, int, float, str, tuple, list, type(None))
         if isinstance(l, conc) and isinstance(r, conc):
             return {ast.Eq: l == r, ast.NotEq: l != r, ast.Lt: None, ast.LtE: None, ast.Gt: None, ast.GtE: None}.get(type(op)) if type(op) in (ast.Eq, ast.NotEq) else {ast.Lt: lambda: l < r, ast.LtE: lambda: l <= r, ast.Gt: lambda: l > r, ast.GtE: lambda: l >= r}[type(op)]()
@@ -1371,6 +1424,10 @@ class Interp:
                 return ModRef('jnp')
             if full == 'jax.config.jax_enable_x64':
                 return False
+            if full.startswith('mujoco.mjt') and full.count('.') == 2:
+                c = _mujoco_enum(full)
+                if c is not None:
+                    return c
             return ModRef(full)
         if isinstance(v, tuple) and v and v[0] == 'jnpns':
             x = v[1][a]
@@ -1526,6 +1583,27 @@ class Interp:
             return ('opaque', name)
         if name in ('jax.scipy.linalg.solve', 'jax.numpy.linalg.solve', 'numpy.linalg.solve'):
             return linsolve(args[0], args[1])
+        if name == 'itertools.groupby':
+            items = list(args[0])
+            keyf = kw.get('key', args[1] if len(args) > 1 else None)
+            def kval(it):
+                k = self.apply(keyf, [it], {}) if keyf is not None else it
+                if isinstance(k, Rat):
+                    if not k.is_const():
+                        raise OutOfFragment('groupby on an abstract key')
+                    k = k.constval()
+                if isinstance(k, np.generic):
+                    k = k.item()
+                return k
+            out, cur, grp = [], object(), None
+            for it in items:
+                k = kval(it)
+                if grp is None or k != cur:
+                    grp = []
+                    out.append((k, grp))
+                    cur = k
+                grp.append(it)
+            return out
         if name == 'itertools.product':
             import itertools as _it
             return list(_it.product(*[list(a) for a in args]))
@@ -1663,7 +1741,10 @@ class Interp:
     def tree_map(self, fn, *trees):
         t0 = trees[0]
         if isinstance(t0, Struct):
-            return Struct(t0.cls, {k: self.tree_map(fn, *[t.f[k] for t in trees]) for k in t0.f}, home=t0.home)
+            home = t0.home or STRUCT_HOME.get(t0.cls)
+            static = static_fields(home, t0.cls) if home else ()
+            return Struct(t0.cls, {k: (t0.f[k] if k in static else self.tree_map(fn, *[t.f[k] for t in trees])) for k in t0.f},
+                          home=t0.home)
         if isinstance(t0, (tuple, list)) and not isinstance(t0, np.ndarray):
             return type(t0)(self.tree_map(fn, *xs) for xs in zip(*trees))
         if isinstance(t0, dict):
@@ -2317,6 +2398,7 @@ JNP.update({
     'ceil': unary('ceil'), 'round': unary('round'),
     'identity': lambda n, **k: P_eye(n),
     'newaxis': None, 'nan': float('nan'), 'bool_': lambda x: x,
+    'uint32': lambda x: x, 'uint8': lambda x: x, 'int64': lambda x: x, 'int8': lambda x: x, 'uint64': lambda x: x, 'float16': lambda x: x,
     'linspace': lambda a, b, n=50, **k: np.array([Rat.lift(exact(float(v))) for v in np.linspace(float(Rat.lift(a).constval()), float(Rat.lift(b).constval()), int(n))], dtype=object),
 })
 JNP['linalg']['det'] = lambda a: _det(asarr(a))
